@@ -249,8 +249,36 @@ def run_shard(desc):
     if k == 'hyp':
         return run_hyp(desc)
     if k == 'drives':
-        return run_drives(desc)
+        o = run_drives(desc)
+        o.merge(run_letterless())
+        return o
     raise HarnessError(k)
+
+
+def run_letterless():
+    """Patterns without a single letter whose ranges still cover letters of one case only (`[0-_]` holds A-Z, `[_-~]` holds a-z): case
+    folding is a property of the mode, not of what the pattern text looks like."""
+    out = Outcome()
+    out.exhaustive = True
+    up, lo = A.mkset(False, ('r', '0', '_')), A.mkset(False, ('r', '_', '~'))
+    nup, nlo = A.mkset(True, ('r', '0', '_')), A.mkset(True, ('r', '_', '~'))
+    seqs = [(up,), (lo,), (nup,), (nlo,), (up, A.STAR), (A.ANY, lo), (up, lo), (A.lit('1'), up), (lo, A.lit('.'), up), (('ext', '@', ((up,), (A.lit('1'),))),),
+            (('ext', '+', ((lo,),)),), (A.mkset(False, ('r', '0', '_'), ('c', '~')),)]
+    letters = ['q', 'Q', 'a', 'A', 'z', 'Z', '1', '_', '~', '^', '`', '.']
+    names = sorted({x for x in letters} | {x + y for x in letters for y in letters[:6]} | {'1' + x for x in letters} | {x + '.' + y for x in 'qQ' for y in 'aA'})
+    for seq in seqs:
+        text = A.render(seq)
+        for j in range(16):
+            for mode in ('fn', 'gl'):
+                check_relations(mode, seq if mode == 'fn' else A.PathPat(False, (seq,), False, 1), text, FLAGSETS[j], names, out, 'letterless',
+                                as_bytes=j % 3 == 0, swapped_text=None)
+        if len(seq) == 1:
+            # ... and as a path of two segments
+            pp = A.PathPat(False, (seq, seq), False, 1)
+            pnames = [a + '/' + b for a in letters[:8] for b in letters[:8]] + [a + '\\' + b for a in letters[:4] for b in letters[:4]]
+            for j in range(16):
+                check_relations('gl', pp, A.render_path(pp), FLAGSETS[j], pnames, out, 'letterless-path', as_bytes=j % 3 == 1, swapped_text=None)
+    return out
 
 
 def run_fs(desc):
